@@ -153,6 +153,16 @@ func runC13(c *eng.Ctx) {
 					c.R.Begin(idx)
 					sandwichOnce(c, "C13", idx, sc, j)
 				}
+				if sc.op.Kind != core.OpCreate && (sc.closer == "ancestor-close" || sc.closer == "provider-close") {
+					for j := 1; j <= points; j++ {
+						idx, mine := next()
+						if !mine {
+							continue
+						}
+						c.R.Begin(idx)
+						sandwichVariant(c, "C13", idx, sc, j, true)
+					}
+				}
 			}
 			// mirror: closer parked inside the j-th disposable Close, op runs
 			dry2, anc2, leaf2 := c13Setup(sc)
@@ -446,6 +456,14 @@ func awaitDisposed(r *core.Run, scope int) bool {
 // disposed and its disposal list already drained), the op is released and finishes
 // constructing in the middle of that Close, then the closer is released.
 func sandwichOnce(c *eng.Ctx, prop string, idx int, sc overlapScenario, j int) {
+	sandwichVariant(c, prop, idx, sc, j, false)
+}
+
+// sandwichVariant with onAncestor: the op runs on the ANCESTOR scope while the closer - the
+// ancestor's own Close (or the provider's) - is parked inside a disposable Close of the
+// ancestor's CHILD: the ancestor is flagged disposed but has not yet drained its own disposal
+// list when the op finishes constructing.
+func sandwichVariant(c *eng.Ctx, prop string, idx int, sc overlapScenario, j int, onAncestor bool) {
 	r, anc, leaf := c13Setup(sc)
 	if !r.Built {
 		c.R.End(idx, eng.Hash("c13-unbuilt", sc.name), false)
@@ -457,6 +475,12 @@ func sandwichOnce(c *eng.Ctx, prop string, idx int, sc overlapScenario, j int) {
 		op.Scope = 0
 	}
 	closer := sc.closerOp(anc, leaf)
+	if onAncestor {
+		op.Scope = anc
+		if sc.closer != "provider-close" {
+			closer = core.Op{Kind: core.OpClose, Scope: anc}
+		}
+	}
 	// the scopes own disposables before the overlap starts, so that the closer has Close
 	// callbacks to be parked in
 	for _, t := range []string{"S2", "K3"} {
@@ -506,6 +530,9 @@ func sandwichOnce(c *eng.Ctx, prop string, idx int, sc overlapScenario, j int) {
 	done := make(chan struct{})
 	go func() { wg.Wait(); close(done) }()
 	feat := sc.name + "|op-finishes-inside-close"
+	if onAncestor {
+		feat = sc.name + "|op-on-ancestor-finishes-while-its-close-is-inside-a-child"
+	}
 	if v := awaitOrDiagnose(done, 60*time.Second); !v.Done {
 		if v.Deadlock {
 			c.R.Violation(eng.Violation{Prop: prop, Clause: "hang", Sig: prop + "/hang:" + feat + ":" + innermostGodiFn(v.Dump), Case: idx, CaseID: feat, Detail: fmt.Sprintf("%s, pause point %d: operations never returned; goroutines stuck inside godi:\n%s", feat, j, v.Dump)})
@@ -547,7 +574,7 @@ func sandwichOnce(c *eng.Ctx, prop string, idx int, sc overlapScenario, j int) {
 		c.R.Count("sandwich_pause_points", 1)
 	}
 	c.R.Count("op_result_"+opRes.Class, 1)
-	c.R.End(idx, eng.Hash("c13-sandwich", feat, j), reached && closerParked)
+	c.R.End(idx, eng.Hash("c13-sandwich", feat, j, onAncestor), reached && closerParked)
 }
 
 func init() { core.C10Overlap = runC10Overlap }
@@ -581,6 +608,18 @@ func runC10Overlap(c *eng.Ctx, next func() (int, bool)) {
 			c.R.Begin(idx)
 			sandwichOnce(c, "C10", idx, sc, j)
 			c.R.Count("overlap_with_close_executions", 1)
+		}
+		if sc.op.Kind != core.OpCreate && (sc.closer == "ancestor-close" || sc.closer == "provider-close") {
+			for j := 1; j <= points; j++ {
+				idx, mine := next()
+				if !mine {
+					continue
+				}
+				c.R.Begin(idx)
+				sandwichVariant(c, "C10", idx, sc, j, true)
+				c.R.Count("overlap_with_close_executions", 1)
+				c.R.Count("overlap_on_ancestor_executions", 1)
+			}
 		}
 	}
 }
